@@ -525,3 +525,21 @@ pub fn replay_twice<S>(build: &(dyn Fn(&mut World) -> S + Sync), choices: &[usiz
     }
     Ok(())
 }
+
+/// Suspend the calling task once (it stays runnable): a scheduling point that does not depend on the runtime.
+pub async fn yield_once() {
+    struct Y(bool);
+    impl Future for Y {
+        type Output = ();
+        fn poll(mut self: Pin<&mut Self>, cx: &mut TaskCx<'_>) -> Poll<()> {
+            if self.0 {
+                Poll::Ready(())
+            } else {
+                self.0 = true;
+                cx.waker().wake_by_ref();
+                Poll::Pending
+            }
+        }
+    }
+    Y(false).await
+}
